@@ -92,7 +92,7 @@ def run(ctx):
                 "jittered datasets with pairwise-distinct distances (checked in float32, else skipped), exact path: graph of "
                 "fit(X, metric=m) vs fit(D_m(X), 'precomputed') with the library's own distance function (default disconnection distance "
                 "for unbounded metrics, an explicit equal one for the six bounded metrics), sample permutation (conjugation), positive "
-                "rescaling of the distances by 1e-3 .. 1e3, the same data as a CSR matrix (where the metric is accepted for sparse input), and for euclidean feature permutation / translation (also 128-200 features on a dyadic grid with exactly representable offsets); non-trivial = the graph "
+                "rescaling of the distances by 1e-3 .. 1e3, the same data as a CSR matrix (where the metric is accepted for sparse input), a second fit in the same process with other metric_kwds, and for euclidean feature permutation / translation (also 128-200 features on a dyadic grid with exactly representable offsets); non-trivial = the graph "
                 "has at least 3 distinct strengths")
     ctx.assumptions += ["graphs compared at abs 2e-5 (float32 bisection); dispatch through sklearn.pairwise_distances / numba is tied only by this run",
                         "n >= 4096 (NN-descent) is outside the property's scope"]
@@ -180,6 +180,26 @@ def run(ctx):
                 if w > GRAPH_TOL:
                     ctx.violation("named-vs-precomputed", f"metric {name}, CSR input: graph differs from the precomputed-distance graph by {w} at {at} "
                                                           f"({g_csr.nnz} vs {g_pre.nnz} entries)", dict(case, input="csr"), key=f"C03:{name}:precomputed-csr")
+            if kw and g_csr is not None:
+                # the same metric again in the same process with other keyword values (nothing may be remembered from the first fit)
+                kw2 = kwds_for(rng, name, X.shape[1])
+                if "p" in kw2 and kw2["p"] == kw.get("p"):
+                    kw2["p"] = 4.0 if kw["p"] != 4.0 else 2.5
+                try:
+                    M2 = distance_matrix(name, X, kw2)
+                    if distinct(M2):
+                        g_pre2 = umap.UMAP(metric="precomputed", **base).fit(M2.astype(np.float64)).graph_
+                        for form2, Xf2 in (("csr", scipy.sparse.csr_matrix(X)), ("dense", X)):
+                            g2 = umap.UMAP(metric=name, metric_kwds=kw2, **base).fit(Xf2).graph_
+                            w, at = gdiff(g2, g_pre2)
+                            if w > GRAPH_TOL:
+                                ctx.violation("named-vs-precomputed", f"metric {name} ({form2} input), second fit in the process with other metric_kwds: "
+                                                                      f"graph differs from the precomputed-distance graph by {w} at {at}",
+                                              dict(case, input=form2, second_metric_kwds={a: (b.tolist() if isinstance(b, np.ndarray) else b) for a, b in kw2.items()}),
+                                              key=f"C03:{name}:precomputed-history")
+                        ctx.bin("kwds_history", mg.canon(name))
+                except Exception as e:  # noqa
+                    ctx.violation("exception", f"second fit with metric {name} raised {type(e).__name__}: {e}", case, key=f"C03:{name}:exception")
             if name == "euclidean":
                 # wide data on a dyadic grid, translated by an offset that float32 represents exactly: every coordinate difference is
                 # unchanged bit for bit, so the graph must be too
